@@ -25,6 +25,8 @@ def styles_for(inf):
         out.append(("node", lab[0]))
     # a list may name a node twice: it still names the same set of nodes
     out.append(("list-with-repeat", list(lab) + [lab[0]]))
+    # "iterable of nodes": a one-shot iterable (made afresh for every call, see _record)
+    out.append(("generator", list(lab)))
     return out
 
 
@@ -119,6 +121,8 @@ def _record(i):
     for full in (False, True):
         simruns.seed_all(1000 + i)
         try:
+            if sc["style"] == "generator":
+                call = dict(call, init_kw=dict(call["init_kw"], initial_infecteds=(x for x in sc["val"])))
             r = simruns.call_sim(EoN, sc["sim"], G, call, full)
         except EoN.EoNError as ex:
             outcomes.append("EoNError")
